@@ -152,13 +152,23 @@ def reach_vp(body, starts, stop=()):
 class Guard:
     """a two-way decision (true_bb when the predicate holds, false_bb otherwise) with path-sensitive sides"""
     def __init__(self, body, switch_bb, true_bb, false_bb):
-        self.body = body; self.switch_bb = switch_bb; self.true_bb = true_bb; self.false_bb = false_bb
+        # true_bb / false_bb: a block, None, or a list of blocks (a test combined with `|` / `&` decides one way only)
+        tl = [t for t in (true_bb if isinstance(true_bb, list) else [true_bb]) if t is not None]
+        fl = [t for t in (false_bb if isinstance(false_bb, list) else [false_bb]) if t is not None]
+        self.body = body; self.switch_bb = switch_bb
+        self.true_bb = tl[0] if len(tl) == 1 else None; self.false_bb = fl[0] if len(fl) == 1 else None
         oks = body.strict_ok_exits(); errs = body.err_exits()
-        def side(t):
-            if t is None: return dict(ok=False, err=False, blocks=set())
-            r = reach_vp(body, [t])
+        def side(ts):
+            if not ts: return dict(ok=False, err=False, blocks=set())
+            r = reach_vp(body, sorted(ts))
             return dict(ok=bool(r & oks), err=bool(r & errs), blocks=r)
+        true_bb, false_bb = tl, fl
         self.t = side(true_bb); self.f = side(false_bb)
+
+    def inverted(self):
+        g = object.__new__(Guard)
+        g.body = self.body; g.switch_bb = self.switch_bb; g.true_bb, g.false_bb = self.false_bb, self.true_bb; g.t, g.f = self.f, self.t
+        return g
 
     def requires(self, polarity):
         """the Ok-exits are reachable only when predicate == polarity; the other side reaches an Err-exit"""
@@ -178,12 +188,37 @@ class Guard:
         return 'switch bb%d: true->bb%s(ok=%s,err=%s) false->bb%s(ok=%s,err=%s)' % (self.switch_bb, self.true_bb, self.t['ok'], self.t['err'], self.false_bb, self.f['ok'], self.f['err'])
 
 
-def guards_of_local(body, local):
-    out = []
-    for sb, neg in T.bool_flow(body, local):
-        tt, ft = T.switch_sides(body, sb, neg)
-        out.append(Guard(body, sb, tt, ft))
+def bool_decisions(body, local):
+    """switches decided by a bool: (switch_bb, targets when it is true, targets when it is false).  Followed through copies,
+    `!x`, anyhow's not(x), and one level of `x | y` / `x & y` (there only one value of x decides: true for `|`, false
+    for `&`; for the other value both targets are possible)"""
+    out = []; work = [(local, False, None)]; seen = set()
+    while work:
+        l, neg, comb = work.pop()
+        if (l, neg, comb) in seen: continue
+        seen.add((l, neg, comb))
+        for kind, bi, x in body.uses.get(l, ()):
+            if kind == 'switch':
+                tt, ft = T.switch_sides(body, bi)
+                both = [t for t in (tt, ft) if t is not None]
+                if comb is None: t_side, f_side = [tt], [ft]
+                elif comb == 'or': t_side, f_side = [tt], both             # (value flowing here) true => switch true
+                else: t_side, f_side = both, [ft]                          # 'and': false => switch false
+                out.append((bi, f_side, t_side) if neg else (bi, t_side, f_side))
+            elif kind == 'stmt' and not x['dst']['p']:
+                rv = x['rv']
+                if rv['k'] == 'use': work.append((x['dst']['l'], neg, comb))
+                elif rv['k'] == 'un' and rv['op'] == 'Not':
+                    work.append((x['dst']['l'], not neg, {None: None, 'or': 'and', 'and': 'or'}[comb]))
+                elif rv['k'] == 'bin' and rv['op'] in ('BitOr', 'BitAnd') and comb is None:
+                    work.append((x['dst']['l'], neg, 'or' if rv['op'] == 'BitOr' else 'and'))
+            elif kind == 'call' and T.NOT_CALL.search(x.name):
+                work.append((x.dst['l'], not neg, {None: None, 'or': 'and', 'and': 'or'}[comb]))
     return out
+
+
+def guards_of_local(body, local):
+    return [Guard(body, sb, t_side, f_side) for sb, t_side, f_side in bool_decisions(body, local)]
 
 
 def guards_of_call(body, call):
@@ -278,12 +313,12 @@ def place_of(body, operand_or_place):
     return None
 
 
-SAME_OPTION = re.compile(r'::(as_ref|as_mut|as_deref|as_deref_mut|borrow|deref|clone|cloned|copied)$')
+SAME_OPTION = re.compile(r'::(as_ref|as_mut|as_deref|as_deref_mut|borrow|deref|clone|cloned|copied|map|inspect)$')     # Some stays Some, None stays None
 
 
 def option_place(body, operand_or_place):
-    """like place_of, but peels only what keeps the Option itself (references, copies, as_ref-like adaptors, tuple
-    components) -- not `?`, ok_or, unwrap or a payload projection, after which the value is the payload"""
+    """like place_of, but peels only what keeps the Option's set/unset state (references, copies, as_ref-like adaptors,
+    Option::map, tuple components) -- not `?`, ok_or, unwrap or a payload projection, after which the value is the payload"""
     o = operand_or_place if 'k' in operand_or_place else {'k': 'copy', 'pl': operand_or_place}
     e = T.expr(body, o)
     while e[0] == 'call' and SAME_OPTION.search(T.strip_generics_tail(e[2])) and e[3]: e = e[3][0]
@@ -339,7 +374,7 @@ def option_tests(body, adt, field):
             p = option_place(body, c.args[0])
             if p and p[1] and is_field(p[1][-1], adt, field):
                 for g in guards_of_call(body, c):
-                    out.append(g if c.item == 'is_some' else Guard(body, g.switch_bb, g.false_bb, g.true_bb))
+                    out.append(g if c.item == 'is_some' else g.inverted())
     # for x in f / f.iter() / .flat_map(|c| c.f.as_ref()) : the loop over the Option's iterator runs its body iff the field is set
     for lo in T.for_loops(body):
         fs, rootl, calls = T.access_path(body, lo[0].args[0])
@@ -373,7 +408,7 @@ def payload_filter(ctx, body, call, optionals):
     if call.item != 'filter_map' or len(call.args) != 2: return False
     cb = closure_of_operand(ctx, body, call.args[1])
     if cb is None: return False
-    p = place_of(cb, {'l': 0, 'p': []})
+    p = option_place(cb, {'l': 0, 'p': []})
     return bool(p and p[0] == 2 and len(p[1]) == 1 and any(is_field(p[1][0], a, f) for a, f in optionals))
 
 
@@ -520,15 +555,21 @@ def validate_rules(ctx):
         rs = ctx.S.backslice(b, [0])
         for f in ('objective', 'constraints', 'removed_constraints'):
             ctx.check(rs.has_field(INST, f), 'C08.defined/Instance::used_ids/returned/' + f, 'T-CARRY', b.name, 'ids used by self.%s are not part of the returned set' % f, b.site())
+        # one instance per collection: some loop over it (one loop may serve both: chain) adds the ids of every element
+        optionals = [(RC, 'constraint')]
         for f, opt in (('constraints', None), ('removed_constraints', (RC, 'constraint'))):
+            ok = False; site = b.site()
             for lo in loops_over(ctx, b, INST, f):
-                if f == 'constraints' and ctx.S.slice_operand(b, lo[0].args[0]).has_field(INST, 'removed_constraints'): continue
                 ext = [c for c in b.calls if c.bb in lo[4] and (c.item == 'extend' or is_set_insert(c))]
                 via = {c.bb for c in ext}
                 if opt:
                     for g in option_tests(b, opt[0], opt[1]):
                         if g.switch_bb in lo[4] and g.false_bb is not None: via.add(g.false_bb)
-                ctx.check(bool(ext) and T.must_pass(b, lo[2], {lo[1]}, via), 'C08.defined/Instance::used_ids/every-%s' % f, 'T-LOOPMUST', b.name, 'an element of self.%s can be skipped' % f, b.site(lo[0].bb))
+                si = ctx.S.slice_operand(b, lo[0].args[0])
+                restr = [x.item for x in si.call_objs if x.item in RESTRICTING and 'Iterator' in (x.trait or '') and not payload_filter(ctx, b, x, optionals)]
+                site = b.site(lo[0].bb)
+                if ext and not restr and T.must_pass(b, lo[2], {lo[1]}, via) and all(b.dominates(lo[1], e) for e in b.strict_ok_exits() | set(b.return_blocks())): ok = True
+            ctx.check(ok, 'C08.defined/Instance::used_ids/every-%s' % f, 'T-LOOPMUST', b.name, 'an element of self.%s can be skipped' % f, site)
     b = ctx.method('C08.defined/ParametricInstance::used_ids/anchor', PI, 'used_ids')
     if b is not None:
         cover(ctx, 'C08.defined/ParametricInstance::used_ids/cover', b, PI, only=('objective', 'constraints'))
@@ -585,7 +626,7 @@ def required_field(ctx, rule_is, rule_prop, body, adt, field, variant, consts, w
     shapes = []          # (is E built for the unset case, does the unset case only fail, site bb)
     for c in body.calls:
         if c.item in ('ok_or', 'ok_or_else') and c.args:
-            p = place_of(body, c.args[0])
+            p = option_place(body, c.args[0])
             if not (p and p[1] and is_field(p[1][-1], adt, field)): continue
             built = False
             if c.item == 'ok_or':
@@ -653,7 +694,7 @@ def enum_parse_rules(ctx):
     if b is not None:
         required_field(ctx, R + '/Function/unset-oneof-is-error', R + '/Function/unset-oneof-propagates', b, 'v1::Function', 'function', 'UnsupportedV1Function', (),
                        'an unset oneof is not reported as UnsupportedV1Function')
-        aggs = sorted({short(st['rv']['adt']) for bi, st in b.stmts() if st['rv']['k'] == 'agg' and st['rv']['adt'].startswith('function::Function::')})
+        aggs = sorted({short(st['rv']['adt']) for fb in [b] + list(ctx.F.closures_of(b)) for bi, st in fb.stmts() if st['rv']['k'] == 'agg' and st['rv']['adt'].startswith('function::Function::')})
         ctx.check(aggs == ['Constant', 'Linear', 'Polynomial', 'Quadratic'], R + '/Function/arms', 'T-TABLE', b.name, 'typed variants produced: %s' % aggs, b.site())
     # required message fields
     for (ty, item, trait, targs), adt_, field, msg in (((('instance::Instance', 'try_from', 'TryFrom', ['v1::Instance'])), INST, 'objective', 'ommx.v1.Instance'),
@@ -667,6 +708,104 @@ def enum_parse_rules(ctx):
 # =============================================================================================
 # C08.parse.bound / C08.parse.default
 # =============================================================================================
+# ------------------------------------------------------------------------------- validity of a bound, one condition at a time
+BOUND_CONDITIONS = (('nan-lower', 'NotANumber'), ('nan-upper', 'NotANumber'), ('lower=+inf', 'InvalidInfinity'), ('upper=-inf', 'InvalidInfinity'), ('lower>upper', 'UpperSmallerThanLower'))
+
+
+def condition_sinks(body, local, holds):
+    """where the truth of a bool decides control: (switch_bb, target taken when the tested condition holds).
+    `holds` = the value of `local` for which the condition holds.  Followed through copies, `!x`, anyhow's not(x),
+    `x | y` (a true operand decides) and `x & y` (a false operand decides); `||` / `&&` are control flow already."""
+    out = []; work = [(local, holds)]; seen = set()
+    while work:
+        l, h = work.pop()
+        if (l, h) in seen: continue
+        seen.add((l, h))
+        for kind, bi, x in body.uses.get(l, ()):
+            if kind == 'switch':
+                tt, ft = T.switch_sides(body, bi)
+                out.append((bi, tt if h else ft))
+            elif kind == 'stmt' and not x['dst']['p']:
+                rv = x['rv']
+                if rv['k'] == 'use': work.append((x['dst']['l'], h))
+                elif rv['k'] == 'un' and rv['op'] == 'Not': work.append((x['dst']['l'], not h))
+                elif rv['k'] == 'bin' and rv['op'] == 'BitOr' and h: work.append((x['dst']['l'], True))
+                elif rv['k'] == 'bin' and rv['op'] == 'BitAnd' and not h: work.append((x['dst']['l'], False))
+            elif kind == 'call' and T.NOT_CALL.search(x.name): work.append((x.dst['l'], not h))
+    return out
+
+
+def bound_tests(body):
+    """atomic tests on (lower, upper) = parameters (1, 2): (bool local, bb, [(condition, value of the bool for which it holds)], text).
+    Table of equivalent spellings (x = lower / upper):
+      NaN:         x.is_nan() | x != x | !(x == x)
+      lower=+inf:  lower == INF | INF == lower | lower >= INF | INF <= lower | !(lower < INF) | !(INF > lower) | !(lower != INF)
+      upper=-inf:  upper == -INF | upper <= -INF | -INF >= upper | !(upper > -INF) | !(-INF < upper) | !(upper != -INF)
+      lower>upper: lower > upper | upper < lower | !(lower <= upper) | !(upper >= lower)
+    (the negated forms also hold for NaN, which is invalid anyway).  Any other float test is 'unrecognised'."""
+    def opnd(o):
+        e = T.strip_wrappers(T.expr(body, o))
+        if e[0] == 'place' and not e[2] and e[1] in (1, 2): return 'lower' if e[1] == 1 else 'upper'
+        if e[0] == 'const':
+            v = T.f64_const(e[1])
+            if v == float('inf'): return '+inf'
+            if v == float('-inf'): return '-inf'
+        return T.expr_str(e, 4)
+    out = []
+    for c in body.calls:
+        if c.item == 'is_nan' and c.args and not c.dst['p']:
+            x = opnd(c.args[0])
+            out.append((c.dst['l'], c.bb, [('nan-' + x, True)] if x in ('lower', 'upper') else [], '%s.is_nan()' % x))
+    for bi, st in float_cmp_sites(body):
+        op = st['rv']['op']; a, b_ = opnd(st['rv']['ops'][0]), opnd(st['rv']['ops'][1])
+        if op in ('Lt', 'Le'): op, a, b_ = ('Gt' if op == 'Lt' else 'Ge'), b_, a
+        cl = []
+        if op in ('Eq', 'Ne'):
+            if a == b_ and a in ('lower', 'upper'): cl = [('nan-' + a, op == 'Ne')]
+            elif {a, b_} == {'lower', '+inf'}: cl = [('lower=+inf', op == 'Eq')]
+            elif {a, b_} == {'upper', '-inf'}: cl = [('upper=-inf', op == 'Eq')]
+        elif (op, a, b_) == ('Ge', 'lower', '+inf'): cl = [('lower=+inf', True)]
+        elif (op, a, b_) == ('Gt', '+inf', 'lower'): cl = [('lower=+inf', False)]
+        elif (op, a, b_) == ('Ge', '-inf', 'upper'): cl = [('upper=-inf', True)]
+        elif (op, a, b_) == ('Gt', 'upper', '-inf'): cl = [('upper=-inf', False)]
+        elif (op, a, b_) == ('Gt', 'lower', 'upper'): cl = [('lower>upper', True)]
+        elif (op, a, b_) == ('Ge', 'upper', 'lower'): cl = [('lower>upper', False)]
+        out.append((st['dst']['l'], bi, cl, '%s %s %s' % (a, op, b_)))
+    return out
+
+
+def bound_conditions(ctx, rule, body):
+    """Each rejection condition is decided on its own by path probing: there is a test of the condition such that
+    (a) the side on which the condition holds reaches only Err-exits (path-sensitive) and can report the matching error,
+    (b) every path from the entry to an Ok-exit evaluates that test (so the rejection does not depend on another condition).
+    Nothing but these conditions rejects: a float test with an Err-only side next to an accepting side must be in the table."""
+    oks = body.strict_ok_exits(); errs = body.err_exits()
+    tests = bound_tests(body)
+    for cond, variant in BOUND_CONDITIONS:
+        why = 'the condition is not tested'; good = None
+        for local, bb, cl, text in tests:
+            for cn, holds in cl:
+                if cn != cond: continue
+                for sb, tgt in condition_sinks(body, local, holds):
+                    ctx.counters['cfg_paths'] += 1
+                    r = reach_vp(body, [tgt]) if tgt is not None else set()
+                    if (r & oks) or not (r & errs): why = '`%s` does not lead to an error on every path' % text; continue
+                    if sb != 0 and (reach_vp(body, [0], stop=(sb,)) & oks): why = '`%s` is not evaluated on every accepting path (the rejection depends on another condition)' % text; continue
+                    if not any(bi in r and st['rv']['k'] == 'agg' and st['rv']['adt'].endswith('BoundError::' + variant) for bi, st in body.stmts()):
+                        why = '`%s` cannot report BoundError::%s' % (text, variant); continue
+                    good = (bb, text)
+        ctx.check(good is not None, '%s/rejects/%s' % (rule, cond), 'T-GUARD', body.name, 'invalid shape %s is not rejected independently: %s' % (cond, why), body.site(good[0]) if good else body.site())
+    extra = []
+    for local, bb, cl, text in tests:
+        for holds in (True, False):
+            for sb, tgt in condition_sinks(body, local, holds):
+                other = [t for t in body.succ(sb) if t != tgt]
+                r = reach_vp(body, [tgt]) if tgt is not None else set(); ro = reach_vp(body, other) if other else set()
+                if (r & errs) and not (r & oks) and (ro & oks) and not any(h == holds for cn, h in cl):
+                    extra.append('%s is %s' % (text, str(holds).lower()))
+    ctx.check(not extra, rule + '/only-invalid-shapes', 'T-TABLE', body.name, 'rejected besides NaN, lower=+inf, upper=-inf, lower>upper: %s' % sorted(set(extra)), body.site(), table=str(sorted(t[3] for t in tests)))
+
+
 def bound_rules(ctx):
     R = 'C08.parse.bound'
     b = ctx.method(R + '/Bound::parse/anchor', 'v1::Bound', 'parse', trait='Parse')
@@ -691,23 +830,7 @@ def bound_rules(ctx):
         ctx.check(okf, R + '/Bound::new/fields', 'T-CARRY', nb.name, 'Bound { lower, upper } is not built from the arguments in order', nb.site())
     cb = ctx.method(R + '/BoundError::check/anchor', 'bound::BoundError', 'check')
     if cb is not None:
-        rows = set()
-        for c in cb.calls:
-            if c.item == 'is_nan':
-                for g in guards_of_call(cb, c):
-                    if g.t['err'] and not g.t['ok']: rows.add(('nan', T.expr_str(T.strip_wrappers(T.expr(cb, c.args[0])))))
-        for bi, st in float_cmp_sites(cb, ('Eq', 'Gt', 'Lt', 'Ge', 'Le')):
-            l = T.strip_wrappers(T.expr(cb, st['rv']['ops'][0])); r = T.strip_wrappers(T.expr(cb, st['rv']['ops'][1]))
-            for g in guards_of_local(cb, st['dst']['l']):
-                if g.t['err'] and not g.t['ok']:
-                    rs_ = T.expr_str(r, 8); rs_ = '-inf' if 'NEG_INFINITY' in str(r) else ('+inf' if 'INFINITY' in str(r) else rs_)
-                    rows.add((st['rv']['op'], T.expr_str(l), rs_))
-        want = {('nan', '_1'), ('nan', '_2'), ('Eq', '_1', '+inf'), ('Eq', '_2', '-inf'), ('Gt', '_1', '_2')}
-        norm = set()
-        for r in rows:
-            if r[0] == 'Lt' and len(r) == 3: r = ('Gt', r[2], r[1])
-            norm.add(r)
-        ctx.check(norm == want, R + '/BoundError::check/table', 'T-TABLE', cb.name, 'rejected: %s; expected NaN(lower), NaN(upper), lower=+inf, upper=-inf, lower>upper' % sorted(norm), cb.site(), table=str(sorted(norm)))
+        bound_conditions(ctx, R + '/BoundError::check', cb)
     # C08.parse.default: Option<v1::Bound> is never defaulted through the prost Default (which is [0,0])
     for fb in ctx.F.bodies.values():
         for c in fb.calls:
@@ -779,7 +902,8 @@ def parse_bound_table(ctx, rule, b):
     tests = option_tests(b, DV, 'bound')
     ctx.check(bool(tests), rule + '/bound-option-test', 'T-BRANCHFX', b.name, 'no case split on self.bound', b.site())
     if not tests: return
-    kind_tests = enum_tests(ctx, b, 'decision_variable::Kind', 'Binary')
+    # the typed kind, or the message's kind (the Kind conversion table is checked by C08.parse.required/Kind/table)
+    kind_tests = enum_tests(ctx, b, 'decision_variable::Kind', 'Binary') + enum_tests(ctx, b, 'v1::decision_variable::Kind', 'Binary')
     best = None
     for g in tests:
         sr = g.only(True); nr = g.only(False)
@@ -877,7 +1001,7 @@ def membership_guards(body):
             for l in T.copies_of(body, c.dst['l']):
                 for kind, bi, y in body.uses.get(l, ()):
                     if kind == 'call' and y.item in ('is_some', 'is_none') and y.arg_local(0) == l:
-                        out += [(g if y.item == 'is_some' else Guard(body, g.switch_bb, g.false_bb, g.true_bb), c) for g in guards_of_call(body, y)]
+                        out += [(g if y.item == 'is_some' else g.inverted(), c) for g in guards_of_call(body, y)]
     return out
 
 
@@ -1043,5 +1167,5 @@ def path_rules(ctx):
 def check(ctx):
     validate_rules(ctx); enum_parse_rules(ctx); bound_rules(ctx); ids_rules(ctx); carry_rules(ctx); path_rules(ctx)
     # floors = decided instances on the pinned tree
-    ctx.floor('C08.validate', 4); ctx.floor('C08.dup', 31); ctx.floor('C08.defined', 19); ctx.floor('C08.parse.required', 15); ctx.floor('C08.parse.bound', 7)
+    ctx.floor('C08.validate', 4); ctx.floor('C08.dup', 31); ctx.floor('C08.defined', 19); ctx.floor('C08.parse.required', 15); ctx.floor('C08.parse.bound', 12)
     ctx.floor('C08.parse.ids', 31); ctx.floor('C08.parse.carry', 39); ctx.floor('C08.parse.default', 4); ctx.floor('C08.parse.path', 30)
